@@ -97,7 +97,8 @@ class C16(Prop):
         "saveObject_error_iff_too_deep", "tmpName_eq", "tmpName_never_a_save_file", "mapping_insert_spec",
         "restore_mapping_all_found", "restore_mapping_all_found_alloc", "hash_sites_as_modelled", "error_messages_as_in_source",
         "save_structure_bytes_as_in_source", "save_atomic_partial", "elem_dispatch_spec", "key_dispatch_spec",
-        "value_dispatch_spec", "svalue_dispatch_spec", "restore_dispatch_as_in_source")]
+        "value_dispatch_spec", "svalue_dispatch_spec", "restore_dispatch_as_in_source",
+        "nesting_and_dry_run_sites_as_modelled", "roundtrip_float_keys", "keys_distinct_with_float_keys")]
     witness_theorems = ["NV.C16.Witness." + t for t in (
         "float_keys_collapse", "roundtripFloatKeys_Full_false", "cr_round_trips", "stray_byte_in_array_ok",
         "inf_is_written_as_number", "same_name_saved", "same_name_variables", "old_mask_loses_the_key")]
@@ -151,7 +152,8 @@ class C16(Prop):
                    "non-UTF-8 multibyte locales (MbLen.cont fails for Big5/GBK/Shift-JIS; the driver always selects UTF-8)",
                    "msameval() identifies a float key with the integer key of the same bit pattern (0.0 / 0): values "
                    "with such key pairs are not generated",
-                   "float keys of mappings are outside the round-trip THEOREM (open finding K5: correspondence only); "
+                   "float keys of mappings are in the round-trip theorem (roundtrip_float_keys) only when their saved texts are pairwise "
+                   "different and under the stated == contract; keys that print alike collapse (open finding K5); "
                    "two variables of one name at different inheritance levels (open finding K6)"]
 
     def gen_extra(self, ctx, bdir):
@@ -310,9 +312,35 @@ class C16(Prop):
                     "def restoreOpeners : List (List Nat) := %s"
                     % (d_arr[0][0], d_cls[0][0], d_map[0][0], d_map[0][1], d_sv[0][0], d_ssv[0][0],
                        [d_arr[1], d_cls[1], d_map[1], d_sv[1], d_ssv[1]]))
+        # the nesting limit of the restore and the dry run of save_object, statement by statement
+        ris = ws(section("static int restore_internal_size (char **str", "static int restore_size (char **str", "restore_internal_size"))
+        rsz = ws(section("static int restore_size (char **str", "static int restore_interior_string", "restore_size"))
+        sob = ws(section("int save_object (object_t * ob", "char* save_variable", "save_object"))
+        sor = ws(section("static int save_object_recurse", "static size_t sel", "save_object_recurse"))
+        top_args = re.findall(r"restore_internal_size \(str, [01], save_svalue_depth\+\+, (\d+)\)", rsz)
+        nest_sites = {
+            "entry test": "char c, delim, index = 0; if (nesting > MAX_SAVE_SVALUE_DEPTH) return 0; delim =" in ris,
+            "recursive calls pass nesting + 1": len(re.findall(r"restore_internal_size \(str, [01], save_svalue_depth\+\+, nesting \+ 1\)", ris)) == 3
+                                                and ris.count("restore_internal_size (str,") == 3,
+            "restore_size passes one literal": len(top_args) == 3 and len(set(top_args)) == 1 and rsz.count("restore_internal_size (str,") == 3,
+        }
+        i_dry, i_open = sob.find("(void) save_object_recurse (ob->prog, &v, 0, save_zeros, NULL);"), sob.find("f = fopen (tmp_name")
+        dry_sites = {
+            "dry run before fopen": 0 <= i_dry < i_open and "v = ob->variables; (void) save_object_recurse (ob->prog, &v, 0, save_zeros, NULL);" in sob,
+            "dry branch advances the cursor": "theSize = svalue_save_size (*svp); if (!f) {" in sor and
+                                              re.search(r"if \(!f\) \{ (/\*.*?\*/ )?\(\*svp\)\+\+; continue; \}", sor) is not None,
+            "real run after the header": sob.find("success = save_object_recurse (ob->prog, &v, 0, save_zeros, f);") > i_open > 0,
+        }
+        nest_txt = ("/-- restore nesting limit: %s; the literal restore_size passes -/\n"
+                    "def nestingSitesAsModelled : Bool := %s\ndef restoreSizeNestingArg : Nat := %s\n"
+                    "/-- save_object dry run: %s -/\ndef dryRunSitesAsModelled : Bool := %s"
+                    % (", ".join("%s=%s" % (k, "yes" if v else "NO") for k, v in nest_sites.items()),
+                       "true" if all(nest_sites.values()) else "false", top_args[0] if top_args else "0",
+                       ", ".join("%s=%s" % (k, "yes" if v else "NO") for k, v in dry_sites.items()),
+                       "true" if all(dry_sites.values()) else "false"))
         lstr = lambda x: '"' + x.replace("\\", "\\\\").replace('"', '\\"') + '"'
         return "\n".join([
-            dispatch,
+            dispatch, nest_txt,
             "/-- restore_variable(): `if (rc & ROB_x) error (msg)` chain, in order -/\ndef restoreVariableMessages : List (String × String) := [%s]"
             % ", ".join("(%s, %s)" % (lstr(a), lstr(b)) for a, b in rv_msgs),
             "/-- restore_object_from_buff(): the same chain with the variable name (`%%s`) -/\n"
